@@ -28,6 +28,8 @@ T_USE = {
     ('mac', 'key'): dict(types=None, active=True, bit='MAC_GENERATE'),
     ('wrap_key', 'encryption_key'): dict(types={'SYMMETRIC_KEY'}, active=True, bit='WRAP_KEY'),
     ('derive_key', 'key_material'): dict(types=None, active=False, bit='DERIVE_KEY'),
+    # the derivation data may come from the request instead of a stored object; when it is a stored object's value that object is a base object of the derivation too
+    ('derive_key', 'derivation_data'): dict(types=None, active=False, bit='DERIVE_KEY', optional=True),
 }
 LIFECYCLE_HANDLERS = {'_process_activate': 'ACTIVATE', '_process_revoke': 'REVOKE', '_process_destroy': 'DESTROY'}
 
@@ -154,6 +156,9 @@ def run(ctx):
             facts = e['key_args'].get(param)
             if bound is None:
                 seen.setdefault(key, []).append((site, False, 'key parameter %s is not passed' % param))
+                continue
+            if facts is None and req.get('optional'):
+                seen.setdefault(key, []).append((site, True, '%s.%s <- %s (not a stored object on this path)' % (meth, param, bound)))
                 continue
             if facts is None:
                 seen.setdefault(key, []).append((site, False, 'key parameter %s is bound to %s, which is not the value of an access-controlled managed object' % (param, bound)))
